@@ -229,6 +229,8 @@ class SVRPEnv(RL4COEnvBase):
         ).all() and (sorted_pi[:, :-graph_size] == 0).all(), "Invalid tour"
 
         # make sure all required skill  levels are met
+        # (the last technician's route counts too, whether or not the actions end with a depot visit)
+        actions = torch.cat((actions, torch.zeros_like(actions[:, :1])), 1)
         indices = torch.nonzero(actions == 0)
         skills = torch.cat(
             [torch.zeros(batch_size, 1, 1, device=td.device), td["skills"]], 1
@@ -241,8 +243,9 @@ class SVRPEnv(RL4COEnvBase):
             if each[0] > batch:
                 start = tech = 0
                 batch = each[0]
-            assert (
-                skills_ordered[batch, start : each[1]] <= td["techs"][batch, tech]
-            ).all(), "Skill level not met"
+            if each[1] > start:  # empty routes (padding) need no technician
+                assert (
+                    skills_ordered[batch, start : each[1]] <= td["techs"][batch, tech]
+                ).all(), "Skill level not met"
             start = each[1] + 1  # skip the depot
             tech += 1
